@@ -2,6 +2,7 @@
 (* Trace validation of EAS.__call__ / CphotAng(det_alt).run against Optical.tla (C08).     *)
 (*   scale {beta, alt, R, Z, rhoZ, thZ, rhoRef, thRef}   same event, detector at Z vs 525   *)
 (*   eas   {alt, reached, dphot, thdeg, A, QE, thr, numPEs, cosEff}   one event of a batch   *)
+(*   geo   {beta, z, z1, Z, R, s, path, altS, len01, altL, gain, dist, prop, view}  geometry helper functions     *)
 EXTENDS TraceKit, Optical
 
 Check(e) ==
@@ -21,6 +22,24 @@ Check(e) ==
                       <<"C08 decays outside [0, 20] km give exactly zero photo-electrons", e.numPEs = FZero>>,
                       <<"C08 decays outside [0, 20] km give the default 1.5 deg angle",
                         FUlps(e.cosEff, FCos(FRadians(DefaultAngleDeg))) <= 1>> >>)
+      [] e.kind = "geo" ->
+        (* the straight-line helper functions of shower_properties.py / detector_geometry.py (extended specification) *)
+        LET T == FDec("1e-9") IN
+        Fails(<< <<"EXT: path_length_tau_atm(z, beta) = distance along the line from the surface to altitude z",
+                   FClose(e.path, Along(e.z, e.beta, e.R), T, T)>>,
+                 <<"EXT: altitude_along_path_length inverts path_length_tau_atm",
+                   FClose(e.altS, AltAt(e.s, e.beta, e.R), T, T)>>,
+                 <<"EXT: length_along_prop_axis(z0, z1) = Along(z1) - Along(z0)",
+                   FClose(e.len01, Dist(e.z, e.z1, e.beta, e.R), T, T)>>,
+                 <<"EXT: altitude_along_prop_axis(L, z0) is the altitude reached L further along the line",
+                   FClose(e.altL, AltAt(FAdd(Along(e.z, e.beta, e.R), e.s), e.beta, e.R), T, T)>>,
+                 <<"EXT: gain_in_altitude = altitude_along_prop_axis - z0", FClose(e.gain, FSub(e.altL, e.z), T, T)>>,
+                 <<"EXT: distance_to_detector (law of sines) = straight-line distance",
+                   FClose(e.dist, Dist(e.z, e.Z, e.beta, e.R), FDec("1e-7"), FDec("1e-6"))>>,
+                 <<"EXT: propagation_angle = acos(R / (R + z) cos beta)",
+                   FClose(e.prop, FAcos(FMul(FDiv(e.R, FAdd(e.R, e.z)), FCos(e.beta))), T, T)>>,
+                 <<"EXT: viewing_angle = asin(R / (R + Z) cos beta)",
+                   FClose(e.view, FAsin(FMul(FDiv(e.R, FAdd(e.R, e.Z)), FCos(e.beta))), T, T)>> >>)
       [] OTHER -> <<"unknown event kind">>
 
 TInit == TKInit
